@@ -43,8 +43,8 @@ def gen(rnd, complete=None):
         v = rnd.randrange(n); edges.insert(rnd.randrange(len(edges) + 1), (v, v))        # an oscillator coupled to itself
     period = rnd.choice([1.0, 1.0, 2.0, 0.5, 1.5, 0.7, 3.0])
     if rnd.random() < 0.25: period = rnd.choice([0.333333, 1 / 3, 0.7142843, 0.123456, 1.2345678, 2.000003])      # not multiples of the 1e-5 grid firing times are rounded to
-    b = rnd.choice([1.0, 2.0, 0.5, 3.0])
-    coupling = rnd.choice([0.01, 0.05, 0.1, 0.25, 0.5, 1.0])
+    b = rnd.choice([1.0, 2.0, 0.5, 3.0, 0.25, 0.1])
+    coupling = rnd.choice([0.01, 0.05, 0.1, 0.25, 0.5, 1.0, 0.0, 1e-6])        # (also no coupling at all, and one below the 1e-5 phase quantum)
     pool = [rnd.random() for _ in range(3)]
     states = [rnd.choice(pool) if rnd.random() < 0.4 else rnd.choice([rnd.random(), rnd.randrange(1, 1 << 20) / (1 << 20), 0.5, 1e-9, 1 - 1e-9])
               for _ in nodes]
